@@ -117,12 +117,13 @@ var propSpecs = map[string]*PropSpec{
 		ID: "C12", Title: "State is a total function of the log; reads are pure; history only grows", Exclude: []string{"[fail-unchanged]", "[one-commit]", "[committed]"},
 		Funcs: cat([]string{"RunList", "RunShow", "RunWhere", "RunPrune", "RunPrunePlan", "runPrune", "runPrune$1", "sortByCreatedAt$1", "sortByCreatedAt", "buildTaskListItems",
 			"computeStatsForTasks", "collectNonEpicTasks", "filterActiveTasks", "filterReadyTasks", "stateIcon", "selectPruneTargets", "buildPrunePlan", "buildPruneItems", "buildTombstoneEvents", "newEvent", "claimedAtForTask"}, lockFuncs, readyFuncs, replayFuncs),
+		Bounded:   []string{"readEvents"},
 		Technique: "contract-based deductive verification: (a) totality: every instruction of the replay loop, of tombstone application and of the read-side graph functions that can panic has a discharged safety obligation for EVERY event list; (b) determinism: every sort comparator that feeds output is proved a total order on the items it sorts (epics: defect repaired), map-derived slices are sorted; (c) read purity: list, show, where and prune without --yes are proved to call no write primitive (ghost log version and commit counter unchanged, no file creation except the lock file); ",
-		Assume:    []string{"readEvents (line scanner, located parse errors) is an assumed contract until the storage layer is under contract; topoSortTasks/collectEpicChildren and the tree renderer are assumed pure; `promptly` (time bounds) is not expressible; append-only is carried by the assumed appendEvents contract (O_APPEND)"},
+		Assume:    []string{"readEvents (line scanner, located parse errors naming file and physical line) is outside the verified subset: BOUNDED stand-in on the real function (line sequences over 7 kinds incl. blank lines before the bad line; every byte prefix of 40 logs); topoSortTasks/collectEpicChildren and the tree renderer are assumed pure; `promptly` (time bounds) is not expressible; append-only is carried by the assumed appendEvents contract (O_APPEND)"},
 	},
 	"C17": {
 		ID: "C17", Title: "Titles and bodies come back exactly as they went in", Exclude: cat(txLabels, jsonLabels),
-		Funcs:     cat([]string{"buildSetEvents", "applySetUpdates$1", "createTaskWithDir$1", "applyLegacyTitleMigration", "buildTaskShowOutput", "(*TaskInput).GetTitle", "(*TaskInput).GetBody", "buildFlagUpdates", "newEvent", "validateTransition", "validateClaimInvariant"}, replayFuncs),
+		Funcs:     cat([]string{"buildSetEvents", "applySetUpdates$1", "createTaskWithDir$1", "applyLegacyTitleMigration", "buildTaskShowOutput", "(*TaskInput).GetTitle", "(*TaskInput).GetBody", "buildFlagUpdates", "newEvent", "validateTransition", "validateClaimInvariant", "writeAll", "appendEvents", "writeEventsFile", "compactEvents", "sortedTasks$1", "sortedTasks", "sortedMapKeys", "sortedKeys"}, replayFuncs),
 		Bounded:   []string{"textRoundTrip"},
 		Technique: "contract-based deductive verification of identity dataflow: the create section puts title and body into the event unchanged; the set builder emits trimSpace(title) and the body verbatim; one iteration of the real replay loop copies the event's text into the addressed item and leaves every other item's text alone, for every event type; a created item carries the create event's text; the legacy-title migration is proved a no-op on titled items; show copies the fields; JSON encoding itself is trusted and exercised by a bounded stand-in through the real chain",
 		Assume:    []string{"encoding/json round trip on strings (trusted table); BOUNDED stand-in: every string of 1..2 (thorough: 1..3) code points over 32 troublemakers (quotes, backslash, NUL, control, <>&, U+2028/9, BOM, U+FFFD, plane-1/16, combining) plus two strings of several hundred kilobytes through newEvent -> appendEvents -> readEvents -> replayEvents -> show JSON", "the command entry points (which input mode trims) are covered for flags (buildFlagUpdates) and JSON getters; RunNewTask/RunSet wiring is under contract for C10/C16 only"},
@@ -137,10 +138,10 @@ var propSpecs = map[string]*PropSpec{
 	},
 	"C20": {
 		ID: "C20", Title: "Result attachments are confined, faithful and never lost", Exclude: cat(txLabels, jsonLabels),
-		Funcs:     cat(lockFuncs, []string{"writeResultEvent$1", "writeResultEvent", "buildResultOutputItem", "buildResultOutputItems", "newEvent"}, replayFuncs),
+		Funcs:     cat(lockFuncs, []string{"writeResultEvent$1", "writeResultEvent", "buildResultOutputItem", "buildResultOutputItems", "newEvent", "compactEvents", "sortedTasks$1", "sortedTasks", "sortedMapKeys", "sortedKeys"}, replayFuncs),
 		Bounded:   []string{"validateResultPath"},
 		Technique: "contract-based deductive verification: the result section appends only for a live, unpruned, non-epic task and records exactly the cleaned path and the captured evidence; the replay loop prepends a result event's fields to the addressed live task and leaves every other task's results (length and elements) untouched for every event type; the output builder copies results in order; bounded stand-in for the lexical path confinement",
-		Assume:    []string{"captureResultEvidence (sha256 of the file content, mtime, git head) and deriveFileURL are assumed contracts; validateResultPath is a BOUNDED stand-in (all strings of length <= 6 over {./aergo} plus a curated list against a component-wise oracle on a real temp tree); re-emission order under compaction belongs to C05 (not yet claimed)"},
+		Assume:    []string{"captureResultEvidence (sha256 of the file content, mtime, git head) and deriveFileURL are assumed contracts; validateResultPath is a BOUNDED stand-in (all strings of length <= 6 over {./aergo} plus a curated list against a component-wise oracle on a real temp tree); re-emission under compaction is compactEvents' step clause [results-tail] (oldest first, every evidence field), part of this check"},
 	},
 	"C11": {
 		ID: "C11", Exclude: jsonLabels, Title: "plan creates the whole described graph or nothing",
@@ -157,9 +158,9 @@ var propSpecs = map[string]*PropSpec{
 	},
 	"C15": {
 		ID: "C15", Title: "Accepted plans can always make progress", Exclude: cat(txLabels, jsonLabels),
-		Funcs:     cat([]string{"verifLemmaProgress", "isReachable", "hasCycle", "writeLinkEvent$1", "newEvent"}, readyFuncs, replayFuncs),
+		Funcs:     cat([]string{"verifLemmaProgress", "isReachable", "hasCycle", "writeLinkEvent$1", "newEvent", "buildSetEvents", "validateTransition", "validateClaimInvariant"}, readyFuncs, replayFuncs),
 		Technique: "contract-based deductive verification: (1) ghost lemma, discharged by the solver: if the effective waits-for relation has a strict rank and nothing is doing/blocked/error, the unfinished task of minimal rank is ready by the proved meaning of isReady; (2) writer obligation: appending a link must extend a rank of the waits-for relation - this obligation FAILS on the link section and is the recorded finding",
-		Assume:    []string{"existence of a rank-minimal unfinished task in a finite store is the (trusted) well-foundedness of < on a finite set", "epic reassignment, creation inside an epic and plan also extend the waits-for relation and are not yet under this obligation"},
+		Assume:    []string{"existence of a rank-minimal unfinished task in a finite store is the (trusted) well-foundedness of < on a finite set", "the lemma's premise that a todo task is unclaimed is the claim invariant of C06: the set builder and the replay step clause that maintain it are part of this check", "epic reassignment, creation inside an epic and plan also extend the waits-for relation and are not yet under this obligation"},
 	},
 	"C16": {
 		ID: "C16", Exclude: txLabels, Title: "--json output is a single value and tells the truth",
